@@ -261,7 +261,7 @@ func runC08case(t *vf.T, c c08case) {
 		t.Violate(sig+" compile-error", err.Error())
 		return
 	}
-	inv.Freeze()
+	inv.Freeze(tasks)
 	d0 := dumpGraph(tasks, inv.Index())
 	if bad := checkGraph(tasks, slice); bad != "" {
 		t.Violate("structure:"+strings.SplitN(bad, ":", 2)[0]+argTag(c), bad+" | "+specString(&sp))
